@@ -326,6 +326,9 @@ func gen(r *rng.R, tier string) fw.Case {
 		return genOps(r, tier)
 	case k < 97:
 		return genWatch(r, tier)
+	case k < 98:
+		kind := r.Pick([]string{"tx2", "cfg2", "cfg3", "tx3"})
+		return fw.Case{Script: []string{"store.init " + kind, "store.real.watchrace 120"}, Tags: []string{"watch-race", "kind:" + kind}, Nontrivial: true}
 	case k < 99:
 		kind := r.Pick([]string{"tx2", "cfg2", "cfg3"})
 		return fw.Case{Script: []string{"store.init " + kind, "store.real.racecancel 200"}, Tags: []string{"race-cancel", "kind:" + kind}, Nontrivial: true}
@@ -693,6 +696,10 @@ func monitor(c fw.Case, out []string) []string {
 		case "real.racecancel":
 			if ans[0] == "stalled" {
 				add("race-stall: after Watch calls with replay on an already cancelled context, concurrent with writes, a second watcher of the %s store stopped receiving events", kind)
+			}
+		case "real.watchrace":
+			if ans[0] == "lost" {
+				add("watch-race: a Watch with replay racing one write ended without having been shown the written version (%s store)", kind)
 			}
 		case "real.regrace":
 			if ans[0] == "missed" {
